@@ -17,7 +17,7 @@ CONSTANTS
   MaxOverlay = 0
   TRSets <- NoTR
   FalsyOverlays = FALSE
-  MaxFaults = 1
+  MaxFaults = 2
   SeqFields <- AllFieldNames
   LConc = FALSE
   WithFaults = TRUE
